@@ -209,3 +209,112 @@ Example C07_bind_current_nonvacuous :
 Proof. split; [reflexivity|]. intros c [<-|[<-|[<-|[]]]]; reflexivity. Qed.
 Print Assumptions C07_bind_current.
 Print Assumptions C07_n_columns_current.
+
+(* ==== BEGIN block "read level" (audit D2) =======================================================
+   C07_rectangular above ASSUMES columns of one length.  This block proves the unconditional
+   clause of the property, "after any successful read all curves have the same length", for
+   Read.read itself (Proofs/ReadDataShape.v):
+     C07_numpy_engine_rect   whenever the numpy engine returns, its columns have one common
+                             length (the number of non-blank rows) -- no hypothesis on the body;
+     C07_normal_engine_rect  whenever the normal engine returns (no reshape error), it returns no
+                             column at all or exactly n columns of one common length (the number
+                             of rows of the reshaped array) -- for every delimiter, substitution
+                             list, requested column count n and body: ragged lines, text tokens
+                             (mixed arrays), WRAP YES, c <> d all included;
+     C07_read_rectangular    read ... = ROk l  ->  all columns of l_data l have one common length
+                             n; l_data l = [] (data ignored / no data section: every curve keeps its
+                             empty array) or there is exactly one column per curve of l; with at
+                             least one data section and data not ignored it IS one column per
+                             curve; and -- the array of curve j being column j (Corr/ReadShow.v
+                             shows nth j (l_data l) [] for curve j) -- all curves of l have one
+                             common length.  Several ~A sections are covered: each one is read
+                             with the curves left by the previous one, replaces the array and may
+                             append unnamed curves (lasio does the same: checked on two ~A
+                             sections of different widths and heights, both engines).
+   engine_out = the engine selection of read_one_data (numpy when selected, not WRAP YES, strict
+   policy, and genfromtxt does not raise; else the normal engine with the sniffed column count). *)
+Require Import Sections ReadCongr ReadDataShape.
+
+Theorem C07_numpy_engine_rect : forall fhex body cols, numpy_engine fhex body = Some cols ->
+  Forall (fun c => List.length c = List.length (genfromtxt_rows body)) cols /\
+  List.length cols = List.length (hd [] (genfromtxt_rows body)) /\ genfromtxt_rows body <> [].
+Proof. exact numpy_engine_rect. Qed.
+
+Theorem C07_normal_engine_rect : forall fhex fstr d subs n body cols,
+  normal_engine fhex fstr d subs n body = DOk cols ->
+  cols = [] \/
+  exists rows, reshape n (normal_items d subs body) = Some rows /\
+               Forall (fun c => List.length c = List.length rows) cols /\ List.length cols = n.
+Proof. exact normal_engine_rect. Qed.
+
+Theorem C07_engine_rect : forall fhex fstr o pw d body ncurves wd cols,
+  engine_out fhex fstr o pw d body ncurves wd = DOk cols ->
+  exists r, Forall (fun c => List.length c = r) cols.
+Proof. exact engine_out_rect. Qed.
+
+Theorem C07_read_rectangular : forall fhex fstr numeq o text l,
+  read fhex fstr numeq o text = ROk l ->
+  (exists n, Forall (fun c => List.length c = n) (l_data l)) /\
+  (l_data l = [] \/ List.length (l_data l) = List.length (s_items (l_curves l))) /\
+  (o_ignore_data o = false -> data_sections_of text <> [] ->
+   List.length (l_data l) = List.length (s_items (l_curves l))) /\
+  (exists n, forall j, (j < List.length (s_items (l_curves l)))%nat -> List.length (nth j (l_data l) []) = n).
+Proof. exact read_rectangular. Qed.
+
+(* every data section on its own: engine ; NULL rule ; binding ; NaN filling -- and nothing else
+   of the file changes *)
+Theorem C07_read_one_data_shape : forall fhex fstr numeq o ls ps d p l l',
+  read_one_data fhex fstr numeq o ls ps d p l = inl l' ->
+  exists cols,
+    engine_out fhex fstr o (p_wrapped ps) d (body_lines ls p) (List.length (s_items (l_curves l))) (wrap_decl l)
+      = DOk cols /\
+    let cols' := null_columns (nulleq numeq (p_null ps)) (o_null_strict o) 0%nat cols in
+    let tr := s_transforms (l_curves l) in
+    l_curves l' = mksect (bind_columns tr (s_items (l_curves l)) 0%nat cols') tr /\
+    l_data l' = data_for_curves (List.length (s_items (l_curves l'))) cols' /\
+    l_version l' = l_version l /\ l_well l' = l_well l /\ l_params l' = l_params l /\
+    l_other l' = l_other l /\ l_custom l' = l_custom l.
+Proof. exact read_one_data_shape. Qed.
+
+(* non-vacuity: concrete files through read, both engines.  Two declared curves. *)
+Definition rr_text (data : list string) : list N :=
+  flat_map (fun l => s2l l ++ [10%N])
+    (["~V"; "VERS. 2.0 : v"; "WRAP. NO : w"; "~W"; "NULL. -999.25 : n"; "~C"; "DEPT.M : d"; "A. : a"] ++ data).
+Definition rr_o (numpy : bool) : ropts := mkropts false CasePreserve numpy true false.
+Definition rr_shape (r : rres) : option (nat * list nat) :=
+  match r with
+  | ROk l => Some (List.length (s_items (l_curves l)), map (@List.length cell) (l_data l))
+  | RErr _ => None
+  end.
+Definition rr_read np data := read ex_fhex (fun t => t) (fun a b => str_eqb a b) (rr_o np) (rr_text data).
+(* ragged lines (2,1,2,1 values): the numpy engine raises, the normal engine reshapes 6 tokens *)
+Example C07_ex_read_ragged : forall np,
+  rr_shape (rr_read np ["~A"; "1 2"; "3"; "4 5"; "6"]) = Some (2%nat, [3%nat; 3%nat]).
+Proof. intros [|]; vm_compute; reflexivity. Qed.
+(* two ~A sections, the second wider and shorter: three curves of one sample *)
+Example C07_ex_read_two_sections : forall np,
+  rr_shape (rr_read np ["~A"; "1 2"; "3 4"; "5 6"; "~A"; "7 8 9"]) = Some (3%nat, [1%nat; 1%nat; 1%nat]).
+Proof. intros [|]; vm_compute; reflexivity. Qed.
+(* two ~A sections, the second narrower: the curve added by the first one is NaN-filled *)
+Example C07_ex_read_two_sections_narrower : forall np,
+  rr_shape (rr_read np ["~A"; "1 2 3"; "3 4 5"; "~A"; "7"; "8"]) = Some (3%nat, [2%nat; 2%nat; 2%nat]).
+Proof. intros [|]; vm_compute; reflexivity. Qed.
+(* a text column; an empty data section; no data section at all *)
+Example C07_ex_read_text_empty_none : forall np,
+  rr_shape (rr_read np ["~A"; "1 a"; "2 b"]) = Some (2%nat, [2%nat; 2%nat]) /\
+  rr_shape (rr_read np ["~A"]) = Some (2%nat, [0%nat; 0%nat]) /\
+  rr_shape (rr_read np []) = Some (2%nat, []) /\
+  data_sections_of (rr_text []) = [] /\ data_sections_of (rr_text ["~A"]) <> [].
+Proof. intros [|]; vm_compute; repeat split; discriminate. Qed.
+(* the engines' hypotheses are met: the numpy engine returns on a rectangular numeric body *)
+Example C07_ex_numpy_returns :
+  numpy_engine ex_fhex [s2l "1 2" ++ [10%N]; s2l "3 4 #c" ++ [10%N]; [10%N]; s2l "5 6"]
+  = Some [ [CNum (s2l "1"); CNum (s2l "3"); CNum (s2l "5")]; [CNum (s2l "2"); CNum (s2l "4"); CNum (s2l "6")] ].
+Proof. vm_compute. reflexivity. Qed.
+
+Print Assumptions C07_numpy_engine_rect.
+Print Assumptions C07_normal_engine_rect.
+Print Assumptions C07_engine_rect.
+Print Assumptions C07_read_rectangular.
+Print Assumptions C07_read_one_data_shape.
+(* ==== END block "read level" (audit D2) ========================================================= *)
